@@ -104,3 +104,17 @@ PROPS["C03"] = {
     ],
     "assumptions": ["formula paragraphs are outside the model's domain (read back under the element name of ordinary paragraphs); the oracle covers them"],
 }
+
+PROPS["C06"] = {
+    "n": {"quick": 1600, "thorough": 30000},
+    "per_shard": 60,
+    "corr_targets": ["Corr/WalkCorr.vo"],
+    "corr": "Corr/WalkCorr.v: Model.Open.open_pkg over the walker table of Gen/Walkers.v vs document.OpenFromMemory on generated packages: error or success, number of body paragraphs/tables/sections/bookmarks, rows, cells, cell paragraphs and nested tables read, and for each optional part whether its own content or the default is in use",
+    "trusted_base": [
+        "Gen/Walkers.v regenerated from pkg/document on every run: every function that takes an *xml.Decoder must be one token loop (first statement decoder.Token(), error return) or a dispatcher, else the table is untranslatable; per case only the reader function called is recorded",
+        "the token stream handed to the model is the one encoding/xml delivers for the same bytes (the harness runs its own decoder); archive/zip decides whether the container is readable",
+        "memory safety (nil dereference, index out of range) is not modelled except for the table grid: panics are searched for by exercising every opened document under recover(); a case that kills the process or exceeds 60 s is isolated in a child process",
+        "Model/Table.v ensure_grid pads with width 0; the code takes the width of the cell",
+    ],
+    "assumptions": ["structural table edits are exercised on opened tables whose rows have equal length and no merges; on other tables they fall under the known findings of C09"],
+}
